@@ -48,8 +48,8 @@ ASSUMPTIONS = [
     'recomputes them independently; Parseval is then demanded for whatever window was selected',
     'band-limited RMS over [a,b] means the square root of the 2-D integral of the PSD over a <= |f| <= b; a '
     'one-sided specification leaves the other side at the limit of the data (0 / largest sampled radius)',
-    'total integrated scatter is 1-exp(-(4 pi cos(theta) sigma / lambda)^2) with sigma the RMS below 1/lambda; '
-    'only exercised where 1/lambda exceeds every sampled frequency',
+    'total integrated scatter is 1-exp(-(4 pi cos(theta) sigma / lambda)^2) with sigma the band-limited RMS over spatial frequencies [0, 1000/lambda] '
+    '(lambda in microns, frequencies in 1/mm, as the docstring and the code comment say) for the wavelength PASSED to the method',
     'numpy.random (legacy global generator) is the only randomness of the synthesis and is seeded per case',
 ]
 
@@ -760,6 +760,78 @@ def run_forms(case, seed, R):
 
 
 # ---------------------------------------------------------------------------------------------
+# total integrated scatter: sigma is the RMS over [0, 1/lambda_requested], wherever that edge falls on the grid
+
+TIS_LAMBDAS = (0.4, 0.6328, 1.55, 10.6)
+
+
+def run_tis(case, seed, R):
+    n0, n1, dx, lam_obj = case['n0'], case['n1'], case['dx'], case['object_wavelength']
+    try:
+        if isinstance(dx, str):       # 'on:<lambda>': the end of axis 0 sits exactly on 1000/lambda
+            dx = (n0 // 2) / (n0 * (1000.0 / float(dx[3:])))
+        h0 = dense((n0, n1), seed, salt=67, complex_=False) + 0.5
+        rms0 = float(np.sqrt(np.mean(h0 ** 2)))
+        r, cls, mids = radial_classes(n0, n1, dx)
+        rmax = float(r.max())
+        ring = ring_mask(n0, n1)
+        _, cands = window_choice('auto', h0, dx)
+        refs = []
+        for name, w, wabs in cands:      # per unit amplitude; the spectrum scales with amplitude^2
+            S2 = float((w ** 2).sum())
+            refs.append((name, ref_psd(h0 * w, dx) / S2 / (n0 * n1 * dx * dx), float(((h0 * wabs) ** 2).sum()) / S2))
+        inv = {}
+        for lam in TIS_LAMBDAS:
+            if lam == lam_obj:
+                continue
+            amp = 0.8 * lam / (4 * np.pi) / rms0          # 4 pi sigma / lambda ~ 0.8: TIS neither saturated nor vanishing
+            edge = 1000.0 / lam
+            on = np.abs(r - edge) <= 4 * EPS * edge
+            where = 'on-bin' if on.any() else ('above' if edge > rmax else 'inside')
+            closed = (r <= edge) | on
+            opened = closed & ~on
+            itf = Interferogram(amp * h0, dx, wavelength=lam_obj)
+            for ang in (0, 30, 60):
+                what = (f'Interferogram({n0}x{n1}, dx={dx!r}, wavelength={lam_obj}).total_integrated_scatter({lam}, {ang}); band edge 1000/lambda={edge:.6g} '
+                        f'({where}; largest sampled frequency {rmax:.6g})')
+                t = R.call(itf.total_integrated_scatter, lam, ang)
+                if t is FAILED:
+                    continue
+                try:
+                    a = np.asarray(t, dtype=float)
+                    good = a.shape == () and bool(np.isfinite(a)) and 0 <= float(a) < 1
+                except Exception:   # noqa
+                    good = False
+                if not R.expect(good, 'total_integrated_scatter:output', what + f': TIS must be one number in [0, 1), got {t!r}'):
+                    continue
+                t = float(a)
+                c = (4 * np.pi * np.cos(np.radians(ang)) / lam) ** 2
+                s2 = -np.log1p(-t) / c / amp ** 2                     # inverted sigma^2, per unit amplitude
+                best = None
+                for name, cell, cond in refs:
+                    O, C, Er = float(cell[opened].sum()), float(cell[closed].sum()), float((cell * ring)[closed].sum())
+                    tol = K * EPS * cond * (1 + np.exp(c * amp ** 2 * C))   # conditioning of 1-exp(-x) and back
+                    dev = max(O - Er - tol - s2, s2 - (C + Er + tol))
+                    if best is None or dev < best[0]:
+                        best = (dev, name, O, C, Er)
+                R.expect(best[0] <= 0, f'total_integrated_scatter:band:{where}',
+                         f'{what}: TIS={t!r} -> sigma^2={s2 * amp ** 2!r}; reference RMS^2 over [0, 1000/lambda]: open band {best[2] * amp ** 2!r}, closed band {best[3] * amp ** 2!r}, '
+                         f'ring weight {best[4] * amp ** 2!r} (window {best[1]})')
+                inv[(lam, ang)] = (s2, best[3] + best[4])
+                R.nontrivial(best[3] > 0)
+        # monotone in the band edge: a shorter wavelength reaches further out, sigma cannot decrease
+        for ang in (0, 30, 60):
+            ls = sorted((lam for (lam, a_) in inv if a_ == ang), reverse=True)     # increasing band edge
+            for l1, l2 in zip(ls[:-1], ls[1:]):
+                (s1, u1), (s2_, u2) = inv[(l1, ang)], inv[(l2, ang)]
+                R.expect(s1 <= s2_ + 1e2 * K * EPS * max(u1, u2), 'total_integrated_scatter:monotone',
+                         f'{n0}x{n1} dx={dx!r} object wavelength {lam_obj}, angle {ang}: sigma^2 inverted from TIS drops from {s1!r} (lambda={l1}) to {s2_!r} (lambda={l2}) although the band widened')
+        R.outcome('tis')
+    finally:
+        prune(R)
+
+
+# ---------------------------------------------------------------------------------------------
 # Interferogram methods
 
 def run_methods(case, seed, R):
@@ -1299,6 +1371,9 @@ def plan(tier, seed):
     ev_shapes = [(4, 4), (5, 5), (4, 7), (7, 6), (8, 8)] + ([] if quick else [(3, 3), (9, 11), (12, 12), (16, 15)])
     ev_cases = [{'n0': a, 'n1': b, 'dx': dx, 'window': w, 'method': w == 'user-ones'}
                 for (a, b) in ev_shapes for dx in (1.0, 0.25) + (() if quick else (3e7,)) for w in ('user-ones', 'welch')]
+    tis_cases = [{'n0': a, 'n1': b, 'dx': dx, 'object_wavelength': lo}
+                 for (a, b) in ([(8, 8), (9, 8), (12, 11)] + ([] if quick else [(7, 7), (16, 16), (10, 13)]))
+                 for dx in (0.1, 0.02, 0.004, 0.002, 'on:10.6', 'on:1.55') for lo in (0.6328, 10.6, 0.4)]
     form_shapes = [(9, 9), (8, 9), (12, 10)] + ([] if quick else [(11, 8), (16, 16), (15, 13)])
     form_cases = [{'n0': a, 'n1': b, 'kind': kind, 'form': form, 'target': tg}
                   for (a, b) in form_shapes for kind in ('period', 'frequency') for tg in ('function', 'method') for form in FORMS]
@@ -1347,6 +1422,11 @@ def plan(tier, seed):
                   f'argument form {list(FORMS)}: every two-sided and one-sided band over the four integer-valued edges (all strictly between sample radii), the form applied to '
                   'both edges and to each edge alone; every form must give the result of the same edges as Python floats (which is itself judged against the reference integral); '
                   'total_integrated_scatter with wavelength / angle in every form', reset=rs),
+        ScopeUnit('tis', tis_cases, run_tis,
+                  f'shapes x dx in {{0.1, 0.02, 0.004, 0.002, and the dx that puts the end of axis 0 exactly on 1000/10.6 resp. 1000/1.55}} x object wavelength {{0.6328, 10.6, 0.4}} x '
+                  f'requested wavelength {list(TIS_LAMBDAS)} (different from the object\'s) x angle {{0, 30, 60}}: the band edge 1000/lambda falls inside / on a bin / above the frequency grid; '
+                  'TIS is inverted for sigma^2 and compared with the reference RMS^2 over [0, 1000/lambda_requested] (open band - ring <= sigma^2 <= closed band + ring); sigma is '
+                  'monotone in the band edge.  Map amplitude chosen so that 4 pi sigma / lambda ~ 0.8', reset=rs),
         ScopeUnit('methods', meth_cases, run_methods,
                   f'every shape in [3..{B}]^2 x dx x map: Interferogram.psd (axes, r, Parseval, == psd()), Interferogram.bandlimited_rms on 4 quantile edges in both '
                   'forms (== function on the method\'s own PSD), total_integrated_scatter at 0 and 30 degrees', reset=rs),
